@@ -117,7 +117,7 @@ func typeChecks(pkgs []string, src map[string]string) bool {
 
 // failureClass reduces a replayer message to its kind (so that the reducer
 // keeps the same failure, not any failure).
-var classRe = regexp.MustCompile(`(missing|unexpected|reported \d+ times|panic|diagnostics on|located in excluded|influence|expected IMPL0\d|Go accepts it|tool is silent|tool lists|crashed|analysis error)[^;]*?([A-Z]{3,4}\d\d)?`)
+var classRe = regexp.MustCompile(`(missing|unexpected|reported \d+ times|panic|diagnostics on|located in excluded|influence|expected IMPL0\d|Go accepts it|tool is silent|tool lists|no annotation of the type explains|crashed|analysis error)[^;]*?([A-Z]{3,4}\d\d)?`)
 
 func failureClass(msg string) string {
 	m := classRe.FindStringSubmatch(msg)
